@@ -15,6 +15,8 @@ Record case := mkCase {
                             11 cancelled while a control cycle is in flight (released after the other actors returned),
                             12 cancelled with a tick pending,
                             13 / 14 as 5 / 9, then the controller is kept alive for more than a second before the shutdown,
+                            16 as 6 after the database directory has disappeared, 17 / 18 as 6 / 5 while another controller is inside its
+                            initialisation sequence (parallel initialisation disabled),
                             15 as 5, the error comes from a real cmd sensor whose command leaves an orphaned child holding its stdout *)
   c_top : Z;             (* PWM at which the start-up activity leaves the fan *)
   o_ret : Z;             (* 0 nil, 1 error, 2 panic, 3 did not return *)
@@ -40,8 +42,8 @@ Definition sched_of (c : case) : list event :=
   match c_scn c with
   | 1 | 2 | 3 => [ok; ok; Advance 0%nat (mk false true false false (left c)); Advance 0%nat (mk true false false false (left c))]
   | 4 => ticking ++ [Tick 0%nat (mkTick (left c) true plan_gone); SigRecv; RpmDone 0%nat]
-  | 5 | 9 | 10 | 13 | 14 | 15 => ticking ++ [Tick 0%nat (mkTick (left c) true plan_ok); SigRecv; RpmDone 0%nat]
-  | 6 | 11 | 12 => ticking ++ [SigRecv; ok; RpmDone 0%nat]
+  | 5 | 9 | 10 | 13 | 14 | 15 | 18 => ticking ++ [Tick 0%nat (mkTick (left c) true plan_ok); SigRecv; RpmDone 0%nat]
+  | 6 | 11 | 12 | 16 | 17 => ticking ++ [SigRecv; ok; RpmDone 0%nat]
   | 7 => [ok; ok; Advance 0%nat (mk true true true false (left c))]
   | 8 => [ok; ok; Advance 0%nat (mk true true false false (left c))]
   | _ => []
